@@ -342,7 +342,9 @@ class AsyncFIXConnection:
                     await self._process_message(decoded_msg, raw_msg)
             except asyncio.CancelledError:
                 return
-            except ConnectionError as why:
+            except OSError as why:
+                # ConnectionError, but also TimeoutError (e.g. keep-alive timeout) and
+                #   other transport errors, reader raises these on every next read()
                 self.log.debug(
                     "socket_read_task: connection has been closed %s" % (why,)
                 )
